@@ -113,4 +113,49 @@ MUTANTS = [
     (CC, "rank_to_flatconfig_u1u1_pascal", "(flatconfig, r, na, ka, nb, kb, pt)", "(flatconfig, r, nb, kb, na, ka, pt)", "expect-fail"),
     (CC, "rank_to_flatconfig_u1u1_pascal", "(flatconfig, r, na, ka, nb, kb, pt)", "(flatconfig, r, na, kb, nb, ka, pt)", "expect-fail"),
     (CC, "rank_to_flatconfig_u1u1_pascal", "(flatconfig, r, na, ka, nb, kb, pt)", "(flatconfig, r - 1, na, ka, nb, kb, pt)", "expect-fail"),
+    # _check_next_coupled_term
+    (CC, "_check_next_coupled_term", "b += size_op", "b += 1", "expect-fail"),
+    (CC, "_check_next_coupled_term", "a += size_term", "a += 1", "expect-fail"),
+    (CC, "_check_next_coupled_term", "ib = b + xi", "ib = b + xi + 1", "expect-fail"),
+    (CC, "_check_next_coupled_term", "ia = a + da", "ia = a + da + 1", "expect-fail"),
+    (CC, "_check_next_coupled_term", "bj[q] = bi[q]", "bj[q] = 0", "expect-fail"),
+    (CC, "_check_next_coupled_term", "bj[reg] = xjs[ib]", "bj[ia] = xjs[ib]", "expect-fail"),
+    (CC, "_check_next_coupled_term", "        # increment operator index\n        b += size_op", "            b += size_op", "expect-fail"),
+    (CC, "_check_next_coupled_term", "for q in range(n):", "for q in range(n - 1):", "expect-fail"),
+    # read-only inputs
+    (CC, "flatconfig_to_rank_nosymm", "    return r", "    flatconfig[0] = 0\n    return r", "expect-fail"),
+    (CC, "flatconfig_to_rank_mixed_radix_nosymm", "    return r", "    strides[0] = 1\n    return r", "expect-fail"),
+    (CC, "flatconfig_to_rank_u1_pascal", "        krem -= xi", "        krem -= xi\n        flatconfig[i] = 0", "expect-fail"),
+    (CC, "_check_next_coupled_term", "bj[reg] = xjs[ib]", "bj[reg] = xjs[ib]\n                bi[reg] = xjs[ib]", "expect-fail"),
+    # reads the partially coupled configuration: differs when a register repeats inside a term
+    (CC, "_check_next_coupled_term", "xi = bi[reg]", "xi = bj[reg]", "expect-fail"),
+]
+
+# deliberate breakage of quimb/operator/builder.py against the fdx providers (contracts.c19_ranking.provider_fdx):
+# (relpath, old text, new text, obligation label that must fail).  Run by copying the package, editing the file and
+# executing the providers with PYTHONPATH pointing at the copy.  The last entry is the FIX of the known defect: with it
+# every fdx obligation (89 quick / 91 thorough) is discharged.
+BD = "quimb/operator/builder.py"
+FDX_MUTANTS = [
+    (BD, '"z": {0: (0, 1.0), 1: (1, -1.0)},', '"z": {1: (1, -1.0), 0: (0, 1.0)},', "_OPMAP::row-order-input-0-then-1"),
+    (BD, '"y": {0: (1, 1.0j), 1: (0, -1.0j)},', '"y": {0: (1, -1.0j), 1: (0, 1.0j)},', "get_mat::matrix-is-textbook"),
+    (BD, '"+": {0: (1, 1.0)},', '"+": {1: (0, 1.0)},', "get_mat::matrix-is-textbook"),
+    (BD, "        a[i, j] = xij", "        a[j, i] = xij", "get_mat::matrix-is-table-row"),
+    (BD, "            cb = np.trace(bmat @ mat) / 2", "            cb = np.trace(bmat @ mat)",
+     "get_pauli_decomp::decomposition-sums-to-operator"),
+    (BD, '            (-1j * coeff, "ⴵ") if op == "y" else (coeff, op)', '            (1j * coeff, "ⴵ") if op == "y" else (coeff, op)',
+     "get_pauli_decomp::decomposition-sums-to-operator"),
+    (BD, "                    for r in range(reg):", "                    for r in range(reg + 1):",
+     "jordan_wigner_transform::z-strings-below-every-ladder-operator"),
+    (BD, "                    for r in range(reg):", "                    for r in range(1, reg):",
+     "jordan_wigner_transform::z-strings-below-every-ladder-operator"),
+    (BD, '                        new_term.append(("z", site_below))', '                        new_term.append(("z", r))',
+     "jordan_wigner_transform::z-strings-below-every-ladder-operator"),
+    (BD, "                new_term.append((op, site))", "                new_term.insert(0, (op, site))",
+     "jordan_wigner_transform::z-strings-below-every-ladder-operator"),
+    (BD, "        # null-term\n        return 0, None", '        # null-term\n        return 0, "I"',
+     "simplify_single_site_ops::null-iff-product-vanishes"),
+    (BD, "                xis.append(xi)\n                xjs.append(xj)", "                xis.append(xj)\n                xjs.append(xi)",
+     "build_coupling_numba::entries-indexed-by-input-bit"),
+    (BD, "    coeff *= ref_coeff / combo_coeff", "    coeff *= combo_coeff / ref_coeff", "FIX: nothing fails"),
 ]
